@@ -8,6 +8,10 @@ func isBareChar(r rune) bool {
 }
 
 func (tree *ParserT) parseBareword() []rune {
+	if tree.charPos >= len(tree.expression) {
+		return nil
+	}
+
 	i := tree.charPos + 1
 
 	for ; i < len(tree.expression); i++ {
